@@ -206,9 +206,11 @@ class Prog:
             trees = {name: m.tree for name, m in self.mods.items()}
             n_ann = sum(normalise.plain_assignments(t) for t in trees.values())
             n_any = sum(normalise.any_to_loop(t) for t in trees.values())
+            n_mf = sum(normalise.map_filter_to_comprehensions(t) for t in trees.values())
             self.norm_stats = normalise.absorb_helpers(trees)
             self.norm_stats["annotated_assignments"] = n_ann
             self.norm_stats["any_tests_to_search_loops"] = n_any
+            self.norm_stats["map_filter_to_comprehensions"] = n_mf
             self.norm_stats["constants_inlined"] = normalise.inline_constants(trees)
             self.norm_stats["accumulator_loops_folded"] = sum(normalise.fold_accumulator_loops(t) for t in trees.values())
             self.norm_stats["single_use_temporaries_inlined"] = sum(normalise.inline_single_use_temps(t) for t in trees.values())
